@@ -42,11 +42,16 @@ DOCS = ["a", "*a* `b`", "> q", "- l", "[x](y)", "![i](j)", "|a|\n|-|", "[r]\n\n[
         # look-ahead nesting close to a (lowered) maxNesting; fenced blocks with info strings
         "[[[[a](b)]]] [[[[[c]]]]](d)",
         "```py\nx\n```\n\n~~~rb\ny\n~~~\n",
-        "```js a=1\nz\n```\n"]
+        "```js a=1\nz\n```\n",
+        # block nesting exactly at the lowered limit (maxNesting 6): the result differs for maxNesting 5 and for 7
+        "> > > > > a\n\n> > > > > > b\n",
+        # emphasis and strong emphasis that span links and images (delimiter stacks saved and restored around them)
+        "*a [b](c) d* **e ![f *g*](h) i**"]
 # many distinct destinations in one call (bounded memo tables, eviction) - long, so only explored in windows
 MANY_A = "".join(f"<http://h.x/a{i}> " for i in range(135)) + "\n"
 MANY_B = "".join(f"[l](/b{i}) " for i in range(135)) + "\n"
 PRESET = ("js-default", None)
+B2_CAP = 60  # preemption points per call in the two-preemption exploration of lemma-failed documents
 SCENARIOS = ["fresh", "reconf-disable", "reconf-enable", "reconf-push", "reconf-ruler2", "warm", "warm-mn6"]
 
 
@@ -336,9 +341,11 @@ def bounds(tier):
             "bound1": "every scheduling point of the first call; " + (
                 "all ordered pairs of 8 documents x 6 scenarios + the quick pairs" if th else f"pairs (scenario, doc A, doc B, granularity) {QUICK_PAIRS}"),
             "bound2": "line granularity, preemptions at and after every shared write of each call; " + (
-                "4 pairs" if th else "1 pair") + " x fresh",
+                "4 pairs" if th else "1 pair") + " x fresh; for each of the first 4 documents that fail the quiescence lemma "
+                f"also (d,d), (d,E), (E,d) on a warmed instance, E = DOCS[16], at most {B2_CAP} points per call",
+            "suspect_pairs": "each lemma-failed document x {itself, DOCS[10], DOCS[11], DOCS[9]} warmed, and x DOCS[15] with maxNesting 6, both orders, bound 1",
             "three_threads": th, "call_kinds": ["render", "parse", "parseInline"],
-            "lemma_docs_every_line": 6 if th else 2,
+            "lemma_docs_every_line": len(DOCS) - 1 if th else 10,
             "lemma_docs_before_after": ("free L-space K<=2" if th else "free L-space K<=1") + " + pool + inline atom strings L<=2",
             "reentry": "every invocation of every site x 4 inner documents x {render, parse} x {first use, warmed}"}
 
@@ -383,8 +390,9 @@ def run_shard(sh, acc):
     #    the lemma's protection, so its interleavings and re-entries are explored explicitly below.
     suspects = []
     lem = []
-    for di in range(6 if th else 2):
-        lem.append(("warm", "render", DOCS[(di + 1) % len(DOCS)], "line"))
+    for di in range(len(DOCS) - 2 if th else 9):
+        lem.append(("warm", "render", DOCS[di], "line"))
+    lem.append(("warm", "render", DOCS[16], "line"))
     lem.append(("warm", "render", MANY_A, "line"))
     lem.append(("warm", "render", MANY_B, "line"))
     windowed = []  # (scenario, call A, call B, steps of A at which to preempt)
@@ -421,6 +429,16 @@ def run_shard(sh, acc):
         for other in (d, DOCS[10], DOCS[11], DOCS[9]):
             pairs.append(("warm", ("render", d), ("render", other), "line"))
             pairs.append(("warm", ("render", other), ("render", d), "line"))
+        # ... and against the document that sits at the (lowered) nesting limit
+        pairs.append(("warm-mn6", ("render", d), ("render", DOCS[15]), "line"))
+        pairs.append(("warm-mn6", ("render", DOCS[15]), ("render", d), "line"))
+    # ... and two preemptions (both calls inside their write windows at once) against the emphasis-over-links document
+    sus_b2 = []
+    for d in suspects[:4]:
+        sus_b2.append(("warm", ("render", d), ("render", d)))
+        if d != DOCS[16]:
+            sus_b2.append(("warm", ("render", d), ("render", DOCS[16])))
+            sus_b2.append(("warm", ("render", DOCS[16]), ("render", d)))
     # 1. solos and profiles
     need_solo = set()
     need_prof = set()
@@ -429,6 +447,9 @@ def run_shard(sh, acc):
         need_prof.add((sc,) + ca + (gran, False))
     need_w = set()
     for sc, ca, cb in b2_pairs:
+        need_solo |= {(sc,) + ca, (sc,) + cb}
+        need_w |= {(sc,) + ca + ("line",), (sc,) + cb + ("line",)}
+    for sc, ca, cb in sus_b2:
         need_solo |= {(sc,) + ca, (sc,) + cb}
         need_w |= {(sc,) + ca + ("line",), (sc,) + cb + ("line",)}
     for sc, ca, cb, pts in windowed:
@@ -474,6 +495,19 @@ def run_shard(sh, acc):
                 wB = [w for w in wB if w[1].startswith("ruler.py")]
             pa = sorted({w[0] + d for w in wA for d in (0, 1) if 1 <= w[0] + d <= nA})
             pb = sorted({w[0] + d for w in wB for d in (0, 1) if 1 <= w[0] + d <= nB})
+            so = [solos[(sc,) + ca], solos[(sc,) + cb]]
+            for i in pa:
+                for j in pb:
+                    yield (sc, [list(ca), list(cb)], [[0, i], [1, j], [0, None], [1, None]], "line",
+                           20 * max(nA, nB) + 5000, so, "bound2")
+        for sc, ca, cb in sus_b2:
+            nA, wA = profs[(sc,) + ca + ("line", True)]
+            nB, wB = profs[(sc,) + cb + ("line", True)]
+            pa = sorted({w[0] + d for w in wA for d in (0, 1) if 1 <= w[0] + d <= nA})
+            pb = sorted({w[0] + d for w in wB for d in (0, 1) if 1 <= w[0] + d <= nB})
+            if len(pa) > B2_CAP or len(pb) > B2_CAP:
+                acc.count("bound2_suspect_pairs_capped")
+                pa, pb = pa[:B2_CAP], pb[:B2_CAP]
             so = [solos[(sc,) + ca], solos[(sc,) + cb]]
             for i in pa:
                 for j in pb:
